@@ -29,8 +29,13 @@ type CondProgram struct {
 	Funcs    []string // functions T has ("f", "g")
 	Ifaces   []string // interfaces T conforms to (transitively), usable as static type of the receiver
 	Shape    string   // DAG shape + implementation levels (distinctness key)
-	// CondOwners maps a function to the declarations contributing conditions.
 	NConds map[string]int // function -> number of boolean conditions (own + inherited), without nested calls
+	// Diamonds classifies the conformance lists met by the depth-first walk from
+	// T (the walk that computes the effective conformances): for every list with
+	// >= 2 entries that mentions an interface already reached earlier:
+	// "shared-first" / "shared-middle" / "shared-last" by its position, and
+	// "shared-then-new" when a not yet reached interface follows it in the list.
+	Diamonds map[string]bool
 }
 
 // CondCall is one invocation of a function of T.
@@ -174,7 +179,10 @@ func GenCond(t *rapid.T) *CondProgram {
 	}
 	hasG := len(fns) == 2
 
-	n := 1 + g.draw(5, "interfaces")
+	n := 1 + g.draw(6, "interfaces")
+	if n < 3 && g.draw(3, "more-interfaces") != 0 {
+		n = 3 + g.draw(4, "interfaces-again")
+	}
 	type iface struct {
 		decl     *CompDecl
 		depth    int
@@ -182,6 +190,7 @@ func GenCond(t *rapid.T) *CondProgram {
 		defaults map[string]int    // fn -> index of the interface holding the default in closure+self, -1 none
 		declares map[string]bool   // fn declared somewhere in closure+self
 		form     map[string]string // fn -> "", "decl", "cond", "impl", "impl+cond"
+		parents  []int
 	}
 	ifs := make([]*iface, 0, n)
 	var shape []string
@@ -193,7 +202,12 @@ func GenCond(t *rapid.T) *CondProgram {
 		// parents among earlier interfaces with depth < 3
 		var parents []int
 		if k > 0 {
-			np := g.draw(3, "nparents")
+			// 0-3 parents in random order; mostly 2-3 once there is a choice, so
+			// that ancestors are shared (diamonds) in all positions of the lists
+			np := g.draw(4, "nparents")
+			if k >= 2 && np < 2 && g.draw(4, "dense") != 0 {
+				np = 2 + g.draw(2, "nparents-again")
+			}
 			for j := 0; j < np; j++ {
 				c := g.draw(k, "parent")
 				if ifs[c].depth >= 3 {
@@ -207,7 +221,6 @@ func GenCond(t *rapid.T) *CondProgram {
 					parents = append(parents, c)
 				}
 			}
-			sort.Ints(parents)
 		}
 		// drop parents until at most one default implementation per function is inherited
 		for {
@@ -226,6 +239,7 @@ func GenCond(t *rapid.T) *CondProgram {
 			}
 			parents = parents[:len(parents)-1]
 		}
+		it.parents = parents
 		for _, q := range parents {
 			it.decl.Conforms = append(it.decl.Conforms, ifs[q].decl.Name)
 			it.closure[q] = true
@@ -249,9 +263,10 @@ func GenCond(t *rapid.T) *CondProgram {
 				declared = declared || ifs[c].declares[fn]
 			}
 			// forms allowed here
-			forms := []string{"", "cond", "cond"}
+			// every interface can carry conditions for every function
+			forms := []string{"", "cond", "cond", "cond"}
 			if inheritedDefault < 0 {
-				forms = append(forms, "decl", "impl", "impl+cond", "impl+cond")
+				forms = append(forms, "cond", "decl", "impl", "impl+cond", "impl+cond")
 			}
 			form := forms[g.draw(len(forms), "form-"+fn)]
 			it.form[fn] = form
@@ -284,15 +299,48 @@ func GenCond(t *rapid.T) *CondProgram {
 		for _, fn := range fns {
 			fs = append(fs, fn+"="+it.form[fn])
 		}
-		shape = append(shape, fmt.Sprintf("%s:%v{%s}", name, parents, strings.Join(fs, ",")))
+		shape = append(shape, fmt.Sprintf("{%s}", strings.Join(fs, ",")))
 	}
 
 	// the composite
 	comp := &CompDecl{Name: "T", Resource: cp.Resource, Fields: []Field{{Name: "x", T: Int, IsVar: true}}}
 	var conf []int
-	nc := 1 + g.draw(2, "nconforms")
+	// mostly conform to a pair (A, B) where B's own conformance list mentions both
+	// an interface that is already reached through A and one that is not
+	{
+		var pairs [][2]int
+		for a := 0; a < n; a++ {
+			for b := 0; b < n; b++ {
+				if a == b || ifs[a].closure[b] {
+					continue
+				}
+				old, fresh := false, false
+				for _, q := range ifs[b].parents {
+					if q == a || ifs[a].closure[q] {
+						old = true
+					} else {
+						fresh = true
+					}
+				}
+				if old && fresh {
+					pairs = append(pairs, [2]int{a, b})
+				}
+			}
+		}
+		if len(pairs) > 0 && g.draw(4, "diamond-pair") != 0 {
+			pr := pairs[g.draw(len(pairs), "pair")]
+			conf = []int{pr[0], pr[1]}
+		}
+	}
+	nc := 1 + g.draw(3, "nconforms")
+	if n >= 2 && nc < 2 && g.draw(4, "dense") != 0 {
+		nc = 2 + g.draw(2, "nconforms-again")
+	}
+	if len(conf) > 0 {
+		nc = g.draw(2, "extra-conforms")
+	}
 	for j := 0; j < nc; j++ {
-		c := n - 1 - g.draw(min(n, 3), "conforms") // prefer the most derived interfaces
+		c := n - 1 - g.draw(min(n, 4), "conforms") // prefer the more derived interfaces; random order
 		dup := false
 		for _, q := range conf {
 			dup = dup || q == c
@@ -301,7 +349,6 @@ func GenCond(t *rapid.T) *CondProgram {
 			conf = append(conf, c)
 		}
 	}
-	sort.Ints(conf)
 	closure := map[int]bool{}
 	for _, c := range conf {
 		comp.Conforms = append(comp.Conforms, ifs[c].decl.Name)
@@ -351,7 +398,73 @@ func GenCond(t *rapid.T) *CondProgram {
 	if cp.Resource {
 		kind = "resource"
 	}
-	cp.Shape = fmt.Sprintf("%s T:%v %s | %s", kind, conf, strings.Join(level, ","), strings.Join(shape, " "))
+	// steer the order inside conformance lists: walk the DAG from T the way the
+	// effective conformances are computed and, where a list mentions both already
+	// reached and new interfaces, mostly move a reached one in front of a new one
+	// (shared ancestor first or in the middle, followed by a new interface)
+	{
+		reached := map[string]bool{}
+		var plan func(list []string)
+		plan = func(list []string) {
+			var old, fresh []string
+			for _, name := range list {
+				if reached[name] {
+					old = append(old, name)
+				} else {
+					fresh = append(fresh, name)
+				}
+			}
+			if len(old) > 0 && len(fresh) > 0 && g.draw(4, "steer") != 0 {
+				var order []string
+				if len(fresh) >= 2 && g.draw(2, "middle") == 0 {
+					order = append(append(append(order, fresh[0]), old...), fresh[1:]...)
+				} else {
+					order = append(append(order, old...), fresh...)
+				}
+				copy(list, order)
+			}
+			for _, name := range list {
+				if !reached[name] {
+					reached[name] = true
+					plan(cp.Decls.Comp(name).Conforms)
+				}
+			}
+		}
+		plan(comp.Conforms)
+	}
+	for i, it := range ifs {
+		shape[i] = fmt.Sprintf("%s:%v%s", it.decl.Name, it.decl.Conforms, shape[i])
+	}
+	cp.Shape = fmt.Sprintf("%s T:%v %s | %s", kind, comp.Conforms, strings.Join(level, ","), strings.Join(shape, " "))
+
+	cp.Diamonds = map[string]bool{}
+	seen := map[string]bool{}
+	var walk func(list []string)
+	walk = func(list []string) {
+		sharedBefore := false
+		for i, name := range list {
+			if seen[name] {
+				if len(list) >= 2 {
+					switch i {
+					case 0:
+						cp.Diamonds["shared-first"] = true
+					case len(list) - 1:
+						cp.Diamonds["shared-last"] = true
+					default:
+						cp.Diamonds["shared-middle"] = true
+					}
+					sharedBefore = true
+				}
+				continue
+			}
+			if sharedBefore {
+				cp.Diamonds["shared-then-new"] = true
+			}
+			seen[name] = true
+			walk(cp.Decls.Comp(name).Conforms)
+		}
+	}
+	walk(comp.Conforms)
 
 	// condition counts per function (own + inherited)
 	m := NewMachine(cp.Decls)
